@@ -69,9 +69,11 @@ class RefResult(__import__('unittest').TestResult):
         self.log = log
 
     def _add(self, test, kind):
-        self.ev.setdefault(test._verif_id, []).append(kind)
+        # a skip inside a subTest arrives for the _SubTest object
+        tid = getattr(test, 'test_case', test)._verif_id
+        self.ev.setdefault(tid, []).append(kind)
         if self.log is not None:
-            self.log.emit('R', t=test._verif_id, kind=kind)
+            self.log.emit('R', t=tid, kind=kind)
 
     def startTest(self, test):
         self.started[test._verif_id] = True
